@@ -307,7 +307,17 @@ def run_phase(cfg, acc):
                 return
             if phase == 'abort-called':
                 if cause == 'shutdown':
-                    circuit.abort(asyncio.CancelledError('shutdown'))
+                    # the real coroutine, started as a task; the sender is the next task to run
+                    # in the same loop iteration
+                    stopper = asyncio.create_task(stop(circuit))
+
+                    async def send_after():
+                        fire_all('in the loop iteration in which shutdown() was called')
+                    await asyncio.create_task(send_after())
+                    await stopper
+                    return
+                if cause == 'never':
+                    pass
                 elif cause == 'cancel-task':
                     circuit.abort(asyncio.CancelledError('x'))
                 else:
